@@ -30,6 +30,8 @@ type memConn struct {
 type readItem struct {
 	data []byte
 	err  error
+	// tail: returned together with the last bytes of data (an io.Reader may return n > 0 and an error)
+	tail error
 }
 
 func newMemConn() *memConn {
@@ -72,6 +74,7 @@ func (m *memConn) Read(p []byte) (int, error) {
 			n = copy(p, it.data)
 			it.data = it.data[n:]
 			if len(it.data) == 0 {
+				err = it.tail
 				m.rq = m.rq[1:]
 			}
 		}
